@@ -1671,7 +1671,7 @@ func init() {
 	registerGen("Gen_C18.v", c18GenCoq)
 	register(&Property{
 		ID: "C18", Imports: "V.Lib V.C18_LibPack V.C18_Model", Judge: "judge", Shard: 120,
-		Rule: "every case = two real round trips (site with the gzip blocks / same site without) with a scripted innermost handler (header ops, WriteHeader, chunked Writes, Flushes, error returns, already-encoded bodies in real gzip/br/zstd/deflate) or casket's file server on files with all 8 sibling combinations; static cases include the full 8x8 matrix siblings on disk x codings offered and random sibling sets x per-coding spellings (q-values, parameters, case, blanks, Unicode white space, near misses); bursts = a history of requests (error status or panic after a partial compressed body, bare errors, aborted downloads) then concurrent requests whose handlers hold their pooled writers together, against the Casketfile site or the gzip chain without errors middleware, under GOMAXPROCS 1/2/all, every response decoded; non-trivial = the gzip layer compressed, or the inner response was already encoded; distinct = distinct case term",
+		Rule: "every case = two real round trips (site with the gzip blocks / same site without) with a scripted innermost handler (header ops, WriteHeader, chunked Writes, Flushes, error returns, already-encoded bodies in real gzip/br/zstd/deflate) or casket's file server on files with all 8 sibling combinations; static cases include the full 8x8 matrix siblings on disk x codings offered and random sibling sets x per-coding spellings (q-values, parameters, case, blanks, Unicode white space, near misses); status stream = every status class (101, 2xx, 204/205/304, 3xx, 4xx, 5xx) with and without body, GET/HEAD, informational WriteHeaders before the final one, already-encoded bodies, and casket's own redirects (redir directive, directory without slash) below the gzip layer; bursts = a history of requests (error status or panic after a partial compressed body, bare errors, aborted downloads) then concurrent requests whose handlers hold their pooled writers together, against the Casketfile site or the gzip chain without errors middleware, under GOMAXPROCS 1/2/all, every response decoded; non-trivial = the gzip layer compressed, or the inner response was already encoded; distinct = distinct case term",
 		Gen: c18Gen,
 		Decode: func(raw json.RawMessage) (interface{}, error) {
 			in := &c18In{}
